@@ -87,7 +87,7 @@ def run(ctx):
         if base.startswith("err"):
             continue
         for route in ("builder", "copy", "slice", "boc", "builder-reused", "slice-continued", "plain-bitarray",
-                      "builder-to-slice-reused"):
+                      "builder-to-slice-reused", "builder-after-refused-stores"):
             r = core.call_impl(lambda _: _route(d, route), None)
             nroute += 1
             if r != base:
@@ -212,6 +212,39 @@ def _route(d, route):
                 more()
             except Exception:
                 pass
+    elif route == "builder-after-refused-stores":
+        # stores that are refused (too many bits, too many references) are attempted in between: a refused operation must
+        # leave the builder as it was, so that the cell finally taken holds exactly the accepted content
+        from pytoniq_core.boc.builder import Builder
+        objs = cells.build_py(d)
+        ty, bits, refs = d[-1]
+        if ty != -1:
+            return cells.info_py(objs[-1])
+        kid = Cell.empty()
+        big_bits = Cell(cells.tvm_bits("1" * 1000), [kid, kid], -1)       # too many bits once 24 are stored; 2 refs
+        many_refs = Cell(cells.tvm_bits("1"), [kid, kid, kid, kid], -1)   # 4 refs: too many once one is stored
+        b = Builder()
+
+        def refused():
+            for attempt in (lambda: b.store_cell(big_bits) if len(b.bits) + 1000 > 1023 else None,
+                            lambda: b.store_slice(big_bits.begin_parse()) if len(b.bits) + 1000 > 1023 else None,
+                            lambda: b.store_cell(many_refs) if len(b.refs) + 4 > 4 and len(b.bits) < 1000 else None,
+                            lambda: b.store_slice(many_refs.begin_parse()) if len(b.refs) + 4 > 4 and len(b.bits) < 1000 else None,
+                            lambda: b.store_uint(1 << 300, 300) if len(b.bits) < 700 else None,
+                            lambda: b.store_bytes(b"\xff" * 128), lambda: b.store_string("x" * 128)):
+                try:
+                    attempt()
+                except Exception:
+                    pass
+        half = len(bits) // 2
+        b.store_bits(bits[:half])
+        refused()
+        for r in refs:
+            b.store_ref(objs[r])
+        refused()
+        b.store_bits(bits[half:])
+        refused()
+        c = b.end_cell()
     elif route == "plain-bitarray":
         # the root built directly from a plain bitarray.bitarray (any length, byte-aligned or not)
         from bitarray import bitarray
